@@ -13,4 +13,4 @@ def run(rep, W, ctx):
     S.s_clientid(rep, W)
     # "enforces exactly the given list" / "with no list every well-formed id is served": the list reaches WebServer::new
     # unchanged and an absent option stays None
-    WR.c17(rep, W, sections={".LIST", ".ARGS"})
+    WR.c17(rep, W, sections={".LIST", ".ARGS", ".PARSERS"})
